@@ -14,7 +14,8 @@ RULE = ("(lattice) complete enumeration of dt in 12 values (decimal literals, 1/
         "enumeration case = one (dt,start,form) with a block of 50 values of m, evaluations count lattice points. (public) "
         "Hypothesis-generated points, 50% drawn from the lattice points whose floating-point quotient falls below m, m<=40, "
         "run through Tempo, MeanFieldTempo, PtTempo, compute_dynamics, compute_dynamics_with_field, "
-        "compute_gradient_and_dynamics (record_all True/False) and PtTebd. Oracle R-times: n = whole steps that fit with an "
+        "compute_gradient_and_dynamics (record_all True/False) and PtTebd. (containers) generated add() histories in any "
+        "order with repeated times on Dynamics / MeanFieldDynamics: axis sorted, every state/field stays with its time. Oracle R-times: n = whole steps that fit with an "
         "end on the grid up to rounding included (exact rational arithmetic + 1e-9 step tolerance), len = n+1, times[k] = "
         "start+k dt within 4 ulp, sorted, states aligned with a longer run, len(process tensor) = n, record_all=False "
         "labelled start+n dt. Non-trivial: quotient inexact in binary, or off-grid, or record_all=False.")
@@ -250,8 +251,63 @@ def run_public(case):
     return out
 
 
+# ---------------------------------------------------------------- the Dynamics containers keep times sorted and aligned
+
+@st.composite
+def s_container(draw, tier):
+    n = draw(st.integers(1, 8))
+    times = [draw(st.sampled_from([0.0, 0.1, 0.2, 0.30000000000000004, 0.3, 0.5, -0.4, 1.0, 2.5])) for _ in range(n)]
+    return {"times": times, "via_constructor": draw(st.integers(0, n)), "mean_field": draw(st.booleans())}
+
+
+def run_container(case):
+    """histories of add() in any order (also repeated times): the time axis stays sorted and every state stays with
+    the time it was added for (as multisets per time), in Dynamics and MeanFieldDynamics"""
+    import oqupy
+    from oqupy.dynamics import Dynamics, MeanFieldDynamics
+    out = Outcome()
+    times = case["times"]
+    n = len(times)
+    states = [np.array([[k + 1.0, 0.5j * k], [-0.5j * k, 1.0]], dtype=complex) for k in range(n)]
+    fields = [complex(k, -k) for k in range(n)]
+    out.nontrivial = times != sorted(times) or len(set(times)) < n
+    out.label("out-of-order" if times != sorted(times) else "ascending", "repeated-times" if len(set(times)) < n else "distinct-times",
+              "MeanFieldDynamics" if case["mean_field"] else "Dynamics")
+    if case["mean_field"]:
+        d = MeanFieldDynamics()
+        for t, s_, f in zip(times, states, fields):
+            d.add(t, [s_, 2 * s_], f)
+        got_t = list(d.times)
+        got = [(t, complex(f), x[0, 0], y[0, 0]) for t, f, x, y in zip(d.times, d.fields, d.system_dynamics[0].states, d.system_dynamics[1].states)]
+        want = [(t, f, s_[0, 0], 2 * s_[0, 0]) for t, s_, f in zip(times, states, fields)]
+        key = lambda r: (r[0], r[1].real, r[1].imag, r[2].real, r[3].real)
+        got_sorted_within = sorted(got, key=key)
+        want = sorted(want, key=key)
+        for sub_d in d.system_dynamics:
+            if list(sub_d.times) != sorted(times):
+                out.fail("container/mean-field/sub-dynamics-times", f"{list(sub_d.times)}")
+    else:
+        k0 = case["via_constructor"]
+        d = Dynamics(times=list(times[:k0]), states=states[:k0]) if k0 else Dynamics()
+        for t, s_ in zip(times[k0:], states[k0:]):
+            d.add(t, s_)
+        got_t = list(d.times)
+        got = [(t, x[0, 0]) for t, x in zip(d.times, d.states)]
+        want = sorted(((t, s_[0, 0]) for t, s_ in zip(times, states)), key=lambda r: (r[0], r[1].real))
+        got_sorted_within = sorted(got, key=lambda r: (r[0], r[1].real))
+        tt, ex = d.expectations(np.array([[1.0, 0], [0, 0]]))
+        if list(tt) != got_t or not np.allclose(ex, [x[0, 0] for x in d.states]):
+            out.fail("container/expectations-misaligned", "expectations() not aligned with times/states")
+    if got_t != sorted(times):
+        out.fail("container/not-sorted", f"times {got_t} after adding {times}")
+    if len(got_sorted_within) != len(want) or any(abs(complex(a[1]) - complex(b[1])) > 0 or a[0] != b[0] for a, b in zip(got_sorted_within, want)):
+        out.fail("container/state-detached-from-time", f"(time, state) pairs changed: added {times}")
+    return out
+
+
 def subs(tier):
     return [
+        Sub("containers", run_container, strategy=s_container, budget={"quick": 600, "thorough": 6000}),
         Sub("lattice", run_lattice, cases=lattice_cases, exhaustive=True, budget={"quick": 6000, "thorough": 6000}),
         Sub("public", run_public, strategy=s_public, budget={"quick": 480, "thorough": 4800}),
     ]
